@@ -62,6 +62,16 @@ def hx_str(s):
 
 
 class PGen:
+    """Generates pattern ASTs.  Node forms (tuples):
+        ("chr", cp, src)            literal code point with its source spelling
+        ("dot",)  ("esc", x)        x in dDwWsS
+        ("cls", neg, items)         items: ("c", cp, src) | ("r", lo, hi, src) | ("e", x, src)
+        ("wb", neg)  ("bol",)  ("eol",)
+        ("grp", kind, name, node)   kind in cap / non / named
+        ("q", node, min, max|None, lazy, src)
+        ("seq", [nodes])  ("alt", [nodes])  ("la", neg, node)   (look-ahead: only in the engine-forcing variants)
+    """
+
     def __init__(self, rng, unicode_flag, allow_astral=True):
         self.rng = rng
         self.u = unicode_flag
@@ -75,43 +85,50 @@ class PGen:
         x = r.random()
         if x < 0.70:
             c = r.choice(LIT_ASCII)
-            if c in "-":
-                return c
-            return c
+            return ("chr", ord(c), c)
         if x < 0.82:
             self.features.add("bmp-lit")
-            return r.choice(LIT_BMP)
+            c = r.choice(LIT_BMP)
+            return ("chr", ord(c), c)
         if x < 0.90 and self.allow_astral:
             self.features.add("astral-lit")
-            return "\U0001F600"
+            return ("chr", 0x1F600, "\U0001F600")
         if x < 0.94 and self.allow_astral:
             self.features.add("astral-esc")
-            return "\\u{1F600}" if self.u else "\\uD83D\\uDE00"
+            return ("chr", 0x1F600, "\\u{1F600}" if self.u else "\\uD83D\\uDE00")
         if x < 0.97:
             self.features.add("hex-esc")
-            return r.choice(["\\x61", "\\u0062", "\\u00e9"])
-        return r.choice(["\\.", "\\-", "\\/"])
+            src, cp = r.choice([("\\x61", 0x61), ("\\u0062", 0x62), ("\\u00e9", 0xE9)])
+            return ("chr", cp, src)
+        src, cp = r.choice([("\\.", 0x2E), ("\\-", 0x2D), ("\\/", 0x2F)])
+        return ("chr", cp, src)
 
     def cls(self):
         r = self.rng
         self.features.add("class")
-        neg = "^" if r.random() < 0.3 else ""
+        neg = r.random() < 0.3
         items = []
         for _ in range(r.randint(1, 3)):
             x = r.random()
             if x < 0.45:
-                items.append(r.choice(list("abcAB1_")))
+                c = r.choice(list("abcAB1_"))
+                items.append(("c", ord(c), c))
             elif x < 0.65:
-                items.append(r.choice(["a-c", "A-C", "0-9", "a-b"]))
+                src = r.choice(["a-c", "A-C", "0-9", "a-b"])
+                items.append(("r", ord(src[0]), ord(src[2]), src))
             elif x < 0.85:
-                items.append(r.choice(["\\d", "\\w", "\\s", "\\D", "\\W"]))
+                e = r.choice("dwsDW")
+                items.append(("e", e, "\\" + e))
             elif x < 0.93:
-                items.append(r.choice(LIT_BMP))
+                c = r.choice(LIT_BMP)
+                items.append(("c", ord(c), c))
             else:
-                items.append("\\u00e9" if not self.allow_astral or r.random() < 0.5 else "\U0001F600")
-                if items[-1] == "\U0001F600":
+                if not self.allow_astral or r.random() < 0.5:
+                    items.append(("c", 0xE9, "\\u00e9"))
+                else:
+                    items.append(("c", 0x1F600, "\U0001F600"))
                     self.features.add("astral-in-class")
-        return "[" + neg + "".join(items) + "]"
+        return ("cls", neg, items)
 
     def atom(self, depth):
         r = self.rng
@@ -120,70 +137,219 @@ class PGen:
             return self.lit()
         if x < 0.50:
             self.features.add("dot")
-            return "."
+            return ("dot",)
         if x < 0.62:
             return self.cls()
         if x < 0.74:
             self.features.add("esc-class")
-            return r.choice(["\\d", "\\w", "\\s", "\\D", "\\W", "\\S"])
+            return ("esc", r.choice("dwsDWS"))
         if depth <= 0:
             return self.lit()
         y = r.random()
         if y < 0.45:
             self.features.add("cap")
             self.groups += 1
-            return "(" + self.alt(depth - 1) + ")"
+            return ("grp", "cap", None, self.alt(depth - 1))
         if y < 0.75:
             self.features.add("noncap")
-            return "(?:" + self.alt(depth - 1) + ")"
+            return ("grp", "non", None, self.alt(depth - 1))
         self.features.add("named")
         self.groups += 1
         self.names += 1
         nm = "n" + "abcdefgh"[self.names % 8] + str(self.names)
-        return "(?<" + nm + ">" + self.alt(depth - 1) + ")"
+        return ("grp", "named", nm, self.alt(depth - 1))
 
     def quant(self, a):
         r = self.rng
         x = r.random()
         if x < 0.55:
             return a
-        q = r.choice(["*", "+", "?", "{2}", "{1,2}", "{0,1}", "{1,}", "*", "+", "?"])
+        q, lo, hi = r.choice([("*", 0, None), ("+", 1, None), ("?", 0, 1), ("{2}", 2, 2), ("{1,2}", 1, 2), ("{0,1}", 0, 1),
+                              ("{1,}", 1, None), ("*", 0, None), ("+", 1, None), ("?", 0, 1)])
         self.features.add("quant")
-        if r.random() < 0.3:
+        lazy = r.random() < 0.3
+        if lazy:
             q += "?"
             self.features.add("lazy")
-        return a + q
+        if a[0] == "grp":
+            self.features.add("quantgroup")
+        return ("q", a, lo, hi, lazy, q)
 
     def term(self, depth):
         r = self.rng
         x = r.random()
         if x < 0.10:
             self.features.add("wordb")
-            return r.choice(["\\b", "\\B"])
+            return ("wb", r.random() < 0.5)
         if x < 0.17:
             self.features.add("anchor")
-            return r.choice(["^", "$"])
+            return ("bol",) if r.random() < 0.5 else ("eol",)
         return self.quant(self.atom(depth))
 
     def seq(self, depth):
         n = self.rng.choice([1, 1, 2, 2, 3, 4])
-        return "".join(self.term(depth) for _ in range(n))
+        return ("seq", [self.term(depth) for _ in range(n)])
 
     def alt(self, depth):
         n = self.rng.choice([1, 1, 1, 2, 2, 3])
         if n > 1:
             self.features.add("alt")
-        return "|".join(self.seq(depth) for _ in range(n))
+        return ("alt", [self.seq(depth) for _ in range(n)])
+
+
+def render_src(n):
+    """JavaScript source of a pattern AST."""
+    k = n[0]
+    if k == "chr":
+        return n[2]
+    if k == "dot":
+        return "."
+    if k == "esc":
+        return "\\" + n[1]
+    if k == "cls":
+        return "[" + ("^" if n[1] else "") + "".join(it[-1] for it in n[2]) + "]"
+    if k == "wb":
+        return "\\B" if n[1] else "\\b"
+    if k == "bol":
+        return "^"
+    if k == "eol":
+        return "$"
+    if k == "grp":
+        inner = render_src(n[3])
+        return {"cap": "(", "non": "(?:", "named": "(?<%s>" % n[2]}[n[1]] + inner + ")"
+    if k == "q":
+        return render_src(n[1]) + n[5]
+    if k == "seq":
+        return "".join(render_src(x) for x in n[1])
+    if k == "alt":
+        return "|".join(render_src(x) for x in n[1])
+    if k == "la":
+        return ("(?!" if n[1] else "(?=") + render_src(n[2]) + ")"
+    raise ValueError(k)
+
+
+def strip_quantified_groups(n):
+    """AST without quantifiers applied to groups (used for the cases generated outside known divergences)."""
+    k = n[0]
+    if k == "q":
+        inner = strip_quantified_groups(n[1])
+        return inner if inner[0] == "grp" else ("q", inner) + tuple(n[2:])
+    if k == "grp":
+        return ("grp", n[1], n[2], strip_quantified_groups(n[3]))
+    if k in ("seq", "alt"):
+        return (k, [strip_quantified_groups(x) for x in n[1]])
+    if k == "la":
+        return ("la", n[1], strip_quantified_groups(n[2]))
+    return n
+
+
+class _Lean:
+    """Token rendering of an AST for the Lean reference matcher (op `ref`), numbering capture groups in source order.
+    Without the u flag the pattern is a sequence of code units: an astral literal is two units and a quantifier after it
+    applies to the low surrogate only; inside a class it contributes two members."""
+
+    def __init__(self, uflag):
+        self.u = uflag
+        self.ncap = 0
+        self.quant_caps = set()
+
+    def units(self, cp):
+        if cp >= 0x10000 and not self.u:
+            c = cp - 0x10000
+            return [0xD800 + (c >> 10), 0xDC00 + (c & 0x3FF)]
+        return [cp]
+
+    def node(self, n):
+        k = n[0]
+        if k == "chr":
+            us = self.units(n[1])
+            if len(us) == 1:
+                return ["chr", str(us[0])]
+            return ["seq", "2", "chr", str(us[0]), "chr", str(us[1])]
+        if k == "dot":
+            return ["dot"]
+        if k == "esc":
+            return ["esc", n[1]]
+        if k == "cls":
+            items = []
+            cnt = 0
+            for it in n[2]:
+                if it[0] == "c":
+                    for u in self.units(it[1]):
+                        items += ["c", str(u)]
+                        cnt += 1
+                elif it[0] == "r":
+                    items += ["r", str(it[1]), str(it[2])]
+                    cnt += 1
+                else:
+                    items += ["e", it[1]]
+                    cnt += 1
+            return ["cls", "1" if n[1] else "0", str(cnt)] + items
+        if k == "wb":
+            return ["wb", "1" if n[1] else "0"]
+        if k == "bol":
+            return ["bol"]
+        if k == "eol":
+            return ["eol"]
+        if k == "grp":
+            if n[1] == "non":
+                return ["grp", "0"] + self.node(n[3])
+            self.ncap += 1
+            idx = self.ncap
+            return ["grp", str(idx)] + self.node(n[3])
+        if k == "q":
+            inner = n[1]
+            if inner[0] == "chr" and len(self.units(inner[1])) == 2:
+                us = self.units(inner[1])
+                return ["seq", "2", "chr", str(us[0])] + ["q", str(n[2]), str(-1 if n[3] is None else n[3]), "1" if n[4] else "0", "0", "0", "chr", str(us[1])]
+            first = self.ncap + 1
+            body = self.node(inner)
+            cnt = self.ncap - first + 1
+            for g in range(first, self.ncap + 1):
+                self.quant_caps.add(g)
+            return ["q", str(n[2]), str(-1 if n[3] is None else n[3]), "1" if n[4] else "0", str(first), str(cnt)] + body
+        if k in ("seq", "alt"):
+            out = [k, str(len(n[1]))]
+            for x in n[1]:
+                out += self.node(x)
+            return out
+        if k == "la":
+            return ["la", "1" if n[1] else "0"] + self.node(n[2])
+        raise ValueError(k)
+
+
+def render_lean(ast, uflag):
+    r = _Lean(uflag)
+    toks = r.node(ast)
+    return ",".join(toks), r.ncap, sorted(r.quant_caps)
 
 
 def gen_pattern(rng, uflag):
     g = PGen(rng, uflag)
-    p = g.alt(rng.choice([0, 1, 2, 2, 3]))
-    return p, g
+    ast = g.alt(rng.choice([0, 1, 2, 2, 3]))
+    return ast, g
+
+
+EMPTY = ("seq", [])
+
+
+def variant_asts(ast):
+    """base + three semantically neutral rewrites that force the backtracking engine (none adds a capture group)."""
+    non = ("grp", "non", None, ast)
+    return [("base", ast),
+            ("v1", ("seq", [("la", False, EMPTY), non])),
+            ("v2", ("seq", [non, ("la", False, EMPTY)])),
+            ("v3", ("grp", "non", None, ("alt", [ast, ("la", True, EMPTY)])))]
 
 
 def variants(p):
     return [("base", p), ("v1", "(?=)(?:" + p + ")"), ("v2", "(?:" + p + ")(?=)"), ("v3", "(?:" + p + "|(?!))")]
+
+
+def case_variants(case):
+    if case.get("ast") is not None:
+        return [(vid, render_src(a), a) for vid, a in variant_asts(case["ast"])]
+    return [(vid, p, None) for vid, p in variants(case["pattern"])]
 
 
 def gen_flags(rng):
@@ -214,7 +380,8 @@ TEMPLATES = ["[$&]", "<$1|$2>", "$`|$'", "$$-$<na1>-$<nb2>", "$0$10$01", "x", ""
 
 def gen_case(rng, cid):
     flags = gen_flags(rng)
-    p, g = gen_pattern(rng, "u" in flags)
+    ast, g = gen_pattern(rng, "u" in flags)
+    p = render_src(ast)
     subj = gen_subject(rng)
     starts = gen_starts(rng, subj)
     limit = rng.choice([0, 1, 2, 3, 5])
@@ -222,7 +389,7 @@ def gen_case(rng, cid):
     modes = GEN_MODES[cid % len(GEN_MODES)] if isinstance(cid, int) else "gexec"
     if rng.random() < 0.08:
         modes = ",".join(GEN_MODES)
-    return {"id": cid, "pattern": p, "flags": flags, "subject": subj, "starts": starts, "limit": limit,
+    return {"id": cid, "pattern": p, "ast": ast, "flags": flags, "subject": subj, "starts": starts, "limit": limit,
             "template": tmpl, "modes": modes, "features": sorted(g.features), "ngroups": g.groups}
 
 
@@ -459,60 +626,22 @@ def wf_problems(rows, n, positions=None):
 
 
 # ------------------------------------------------------------------ classification of disagreements
-QUANT_GROUP = re.compile(r"\)[*+?{]")
-
-
-def tags_for(case, pattern, eng, rows):
-    """Detector tags: circumstances under which a KNOWN divergence (documented in known_findings.d/C20.json)
-    can occur.  A disagreement in a case that carries no tag is never suppressed."""
-    fl = case["flags"]
-    subj = case["subject"]
-    t = []
-    has_empty = any(r is not None and r[0][0] == r[0][1] for r in rows)
-    if "g" in fl and "y" in fl and has_empty:
-        t.append("gy-empty")
-    if "g" not in fl and "u" in fl and not is_ascii_subject(subj):
-        t.append("nonglobal-u")
-    if ("\\b" in pattern or "\\B" in pattern) and any(u in LETTERS_NONASCII for u in subj):
-        t.append("wb-nonascii")
-    if QUANT_GROUP.search(pattern):
-        t.append("quantgroup")
-    if has_empty and eng.startswith("re2"):
-        t.append("re2-empty")
-    if has_empty:
-        t.append("split-empty")
-    if "u" in fl and not is_ascii_subject(subj) and "(?<" in pattern and eng.startswith("re2"):
-        t.append("names-nil")
-    return t
-
-TAG_OPS = {
-    "gy-empty": "MFR", "nonglobal-u": "FR", "re2-empty": "MFRP", "wb-nonascii": "ETMASFRP", "quantgroup": "ETMASFRP",
-    "names-nil": "EMAFR", "split-empty": "P",
-}
-MIXED_ONLY = {"re2-empty", "wb-nonascii", "quantgroup", "names-nil"}     # need two engines to be involved
-TAG_PRIORITY = ["names-nil", "wb-nonascii", "gy-empty", "nonglobal-u", "quantgroup", "split-empty", "re2-empty"]
-
-
-def signature_for(cmpkind, op, tags, mixed):
-    for t in TAG_PRIORITY:
-        if t in tags and op[0] in TAG_OPS[t] and (mixed or t not in MIXED_ONLY):
-            return "%s:%s" % (cmpkind, t)
-    return "%s:%s:untagged" % (cmpkind, op[0])
+def has_wordboundary(case, pattern):
+    return "\\b" in pattern or "\\B" in pattern
 
 
 def clean_case(rng, case):
-    """Most cases are generated outside the circumstances of the known divergences, so that a disagreement
-    there can never be attributed to one of them."""
+    """Most cases are generated outside the circumstances of the known engine divergences (quantified groups,
+    word boundaries next to non-ASCII letters), so that whatever differs there cannot be attributed to them."""
+    if case.get("ast") is not None:
+        case["ast"] = strip_quantified_groups(case["ast"])
+        case["pattern"] = render_src(case["ast"])
     p = case["pattern"]
-    p = re.sub(r"\)([*+?]|\{\d+(,\d*)?\})\??", ")", p)                 # no quantified groups
-    case["pattern"] = p
     if "\\b" in p or "\\B" in p:
         rep = {0xE9: 0x20AC, 0xC9: 0x20AC, 0x436: ord("-")}
         subj = [rep.get(u, u) for u in case["subject"]]
         subj = [0xD83D if u == 0xD835 else (0xDE00 if u == 0xDCB3 else u) for u in subj]
         case["subject"] = subj
-    if "g" in case["flags"] and "y" in case["flags"]:
-        case["flags"] = case["flags"].replace(rng.choice("gy"), "")
     case["clean"] = True
     return case
 
@@ -611,32 +740,104 @@ def run_small(ctx, h, model, ops):
     return n_bad
 
 
+def valid_utf16(units):
+    return all(not (0xD800 <= r <= 0xDFFF) for r, _ in py_decode(units))
+
+
+def find_path(hasre2, subj, uflag, start, limit):
+    """Which code path regexpPattern.findAllSubmatchIndex takes (regexp.go:159-194)."""
+    if not hasre2 or start != 0:
+        return "r2"
+    if is_ascii_subject(subj):
+        return "go"
+    if limit == 1:
+        return "single"
+    if uflag and valid_utf16(subj):
+        return "go"
+    return "r2"
+
+
+def raw_rows(s):
+    if s in ("-", "", None):
+        return []
+    out = []
+    for r in s.split("|"):
+        v = [int(x) for x in r.split(".")]
+        for i in range(0, len(v) - 1, 2):
+            if v[i] == -1:
+                v[i + 1] = -1
+        out.append(v)
+    return out
+
+
+def row_idx(r):
+    return None if r is None else r[0]
+
+
+QUANT_GROUP_RE = re.compile(r"\)[*+?{]")
+
+FVG_OPS = "MFRP"          # operations with a fast path of their own
+
+
 def run_rx(ctx, h, model, cases, nproc=16):
     lines, meta = [], []
     for c in cases:
-        for vid, p in variants(c["pattern"]):
+        for vid, p, ast in case_variants(c):
             lines.append(rx_line(c, vid, p))
-            meta.append((c, vid, p))
+            meta.append((c, vid, p, ast))
     t0 = time.time()
-    outs = run_sharded([h], lines, nproc, 400, 30)
+    outs = run_sharded([h], lines, nproc, 600, 60)
     ctx.stats["rx_harness_s"] = round(ctx.stats.get("rx_harness_s", 0) + time.time() - t0, 1)
     parsed = [parse_rx(o) for o in outs]
-    # model predictions
-    pred_lines, pred_idx = [], []
-    for i, (d, (c, vid, p)) in enumerate(zip(parsed, meta)):
-        if "tbl" in d:
-            pred_lines.append("pred %s %s %s %d %s" % (c["flags"] or "-", hx(c["subject"]), ",".join(map(str, c["starts"])),
-                                                      c["limit"], d["tbl"].replace(" ", "")))
-            pred_idx.append(i)
-    preds = {}
-    if model and pred_lines:
-        po = run_sharded([model], pred_lines, 4, 300, 30)
-        for i, o in zip(pred_idx, po):
-            if o is not None:
-                preds[i] = parse_dump(o)
+
+    # ---------------- model queries: one `pred` per line + `iter` per distinct raw-list request
+    mlines, mkey = [], []
+    for i, (d, (c, vid, p, ast)) in enumerate(zip(parsed, meta)):
+        if "tbl" not in d:
+            continue
+        fl, subj = c["flags"], c["subject"]
+        mlines.append("pred %s %s %s %d %s %s %s %s %s" % (fl or "-", hx(subj), ",".join(map(str, c["starts"])), c["limit"],
+                                                          hx_str(c["template"]), d["tbl"], d["allm"], d["alls"], d["allr"]))
+        mkey.append((i, "pred"))
+        hasre2 = d["tblr"] != "-"
+        reqs = {("m", 0, -1, "y" in fl), ("s", 0, -1, False)}
+        for ent in d["allr"].split(";"):
+            k, _, l = ent.partition(":")
+            if l == "beyond" or k == "":
+                continue
+            k = int(k)
+            reqs.add(("r%d" % k, 0 if ("g" in fl or "y" not in fl) else k, -1 if "g" in fl else 1, "y" in fl))
+        d["_reqs"] = sorted(reqs)
+        if vid == "base" and ast is not None and hasre2:
+            toks, ncap, qcaps = render_lean(ast, "u" in fl)
+            for nm, wbu, perl in (("ref", 0, 0), ("refw", 1, 0), ("refp", 0, 1), ("refwp", 1, 1)):
+                mlines.append("ref %s %s %d %d %d %s" % (fl or "-", hx(subj), ncap, wbu, perl, toks))
+                mkey.append((i, nm))
+        for (tag, st, lim, stk) in d["_reqs"]:
+            for tname in ("tbl", "tbl2") + (("tblr",) if hasre2 else ()):
+                mlines.append("iter %s %s %d %d %d %s" % (fl or "-", hx(subj), st, lim, 1 if stk else 0, d[tname]))
+                mkey.append((i, (tag, tname)))
+    mres = {}
+    if model and mlines:
+        mo = run_sharded([model], mlines, 4, 600, 60)
+        for (i, k), o in zip(mkey, mo):
+            if o is None:
+                continue
+            if k == "pred":
+                g, _, f = o.partition("\t")
+                mres[(i, "gen")] = parse_dump(g)
+                mres[(i, "fast")] = parse_dump(f)
+            elif isinstance(k, str):
+                mres[(i, k)] = [None if r == "x" else "na" if r == "na" else [int(x) for x in r.split(".")] for r in o.split("|")]
+            else:
+                mres[(i, k)] = {kk: raw_rows(vv) for kk, vv in (x.split("=", 1) for x in o.split(";"))}
+
+    # C20_EXPECT_PATCHED=1: the tree under test carries fixes/C20-{split-empty-match-at-previous-end,sticky-fast-paths-use-generic-
+    # protocol,findall-empty-match-adjacent-to-previous}.diff; expect the mechanism those patches produce (used to validate them)
+    patched = os.environ.get("C20_EXPECT_PATCHED") == "1"
     st = ctx.stats.setdefault("rx", {"cases": 0, "lines": 0, "engines": {}, "syntax_errors": 0, "timeouts": 0, "flags": {},
                                      "features": {}, "subject_kinds": {}, "modes": {}, "ops_compared": 0, "split_pair_starts": 0,
-                                     "clean_cases": 0, "tags": {}})
+                                     "clean_cases": 0, "paths": {}, "rawlists_checked": 0, "fast_ne_generic": {}, "engine_rows_compared": 0})
     found = {}
 
     def report(sig, summary, c, vid, p, detail):
@@ -649,130 +850,251 @@ def run_rx(ctx, h, model, cases, nproc=16):
     for ci in range(0, len(lines), 4):
         c = meta[ci][0]
         ds = parsed[ci:ci + 4]
+        subj, fl = c["subject"], c["flags"]
+        n = len(subj)
         st["cases"] += 1
         st["lines"] += 4
         ctx.count(4)
-        st["flags"][c["flags"] or "-"] = st["flags"].get(c["flags"] or "-", 0) + 1
+        st["flags"][fl or "-"] = st["flags"].get(fl or "-", 0) + 1
         for ftr in c.get("features", []):
             st["features"][ftr] = st["features"].get(ftr, 0) + 1
-        subj = c["subject"]
-        sk = ("empty" if not subj else "ascii" if is_ascii_subject(subj) else
-              "lone-surrogate" if len(py_decode(subj)) + sum(1 for r, s in py_decode(subj) if s == 2) == len(subj) and any(0xD800 <= r <= 0xDFFF for r, _ in py_decode(subj))
-              else "astral" if any(s == 2 for _, s in py_decode(subj)) else "bmp")
+        dec = py_decode(subj)
+        sk = ("empty" if not subj else "ascii" if is_ascii_subject(subj) else "lone-surrogate" if not valid_utf16(subj)
+              else "astral" if any(sz == 2 for _, sz in dec) else "bmp")
         st["subject_kinds"][sk] = st["subject_kinds"].get(sk, 0) + 1
         if c.get("clean"):
             st["clean_cases"] += 1
-        errs = [d["eng"].startswith("ERR") for d in ds]
         if any(d["eng"] == "ERR:PANIC" for d in ds):
             k0 = [i for i, d in enumerate(ds) if d["eng"] == "ERR:PANIC"][0]
-            report("rx:go-panic-in-engine-glue", "Go panic while matching /%s/%s on %s: %s" % (meta[ci + k0][2], c["flags"], hx(subj), ds[k0].get("panic")),
+            report("rx:go-panic-in-engine-glue", "Go panic while matching /%s/%s on %s: %s" % (meta[ci + k0][2], fl, hx(subj), ds[k0].get("panic")),
                    c, meta[ci + k0][1], meta[ci + k0][2], {"panic": ds[k0].get("panic")})
             continue
         if any(d["eng"] == "ERR:TIMEOUT" for d in ds):
-            st["timeouts"] += 1
-            report("rx:timeout-or-crash", "harness timed out or crashed on %r /%s/" % (c["pattern"], c["flags"]), c, "?", c["pattern"], {})
+            st["timeouts"] += 1          # inconclusive (slow machine / catastrophic backtracking): counted, not a violation
             continue
+        errs = [d["eng"].startswith("ERR") for d in ds]
         if any(errs):
             st["syntax_errors"] += 1
             if not all(errs) or any(d["eng"] != "ERR:SyntaxError" for d in ds):
                 report("engine:syntax-acceptance", "variants disagree on validity of %r: %s" % (c["pattern"], [d["eng"] for d in ds]),
                        c, "base", c["pattern"], {"eng": [d["eng"] for d in ds]})
             continue
-        ctx.nontriv([c["pattern"], c["flags"], c["subject"]])
+        ctx.nontriv([c["pattern"], fl, subj])
         if len(ctx.samples) < 8:
-            ctx.sample({"pattern": c["pattern"], "flags": c["flags"], "subject": hx(subj), "starts": c["starts"], "engines": [d["eng"] for d in ds]})
-        base_rows = rows_of(ds[0]["tbl"])
-        for k, (d, (cc, vid, p)) in enumerate(zip(ds, meta[ci:ci + 4])):
+            ctx.sample({"pattern": c["pattern"], "flags": fl, "subject": hx(subj), "starts": c["starts"], "engines": [d["eng"] for d in ds]})
+        bset, cur = {0}, 0
+        for _, sz in dec:
+            cur += sz
+            bset.add(cur)
+        bpos = bset if "u" in fl else None
+        base_rows2 = rows_of(ds[0]["tbl2"])
+        for k, (d, (cc, vid, p, ast)) in enumerate(zip(ds, meta[ci:ci + 4])):
+            li = ci + k
             eng = d["eng"]
             st["engines"][eng] = st["engines"].get(eng, 0) + 1
             rows = rows_of(d["tbl"])
-            mixed = eng.startswith("re2")
-            tags = tags_for(c, p, eng, rows)
-            for t in tags:
-                st["tags"][t] = st["tags"].get(t, 0) + 1
-            # which path did each mode take?
+            rows2 = rows_of(d["tbl2"])
+            hasre2 = d["tblr"] != "-"
+            rowsr = [None if r in ("na",) else (rows_of(r)[0]) for r in d["tblr"].split("|")] if hasre2 else None
+            na_r = [r == "na" for r in d["tblr"].split("|")] if hasre2 else None
             if not d.get("std", "1").startswith("1") or "1" in d.get("std", "1")[1:]:
                 report("guard:path-selection", "checkStdRegexp gave %s for modes fast+%s" % (d.get("std"), c["modes"]), c, vid, p, {"std": d.get("std")})
             dumps = {k2[2:]: parse_dump(v) for k2, v in d.items() if k2.startswith("D:")}
             for mname in dumps:
                 st["modes"][mname] = st["modes"].get(mname, 0) + 1
-            bad_dump = [m for m, dd in dumps.items() if any(v.startswith("PANIC") or v.startswith("DUMPERR") for v in dd) or
-                        any(k3.startswith("PANIC") or k3.startswith("DUMPERR") for k3 in dd)]
+            bad_dump = [m for m, dd in dumps.items() if any(k3.startswith("PANIC") or k3.startswith("DUMPERR") for k3 in dd)]
             if bad_dump:
-                beyond = any(s0 > len(subj) for s0 in c["starts"])
-                only_replace = all(v.startswith("PANIC") <= (op[0] in "FR") for m in bad_dump for op, v in dumps[m].items())
-                psig = "rx:panic"
-                if "y" in c["flags"] and "g" not in c["flags"] and beyond and only_replace and bad_dump == ["fast"] or \
-                        ("y" in c["flags"] and "g" not in c["flags"] and beyond and only_replace):
-                    psig = "rx:panic:replace-sticky-lastindex-beyond-length"
-                report(psig, "Go panic / dump error escaped in mode %s for /%s/%s" % (bad_dump, p, c["flags"]), c, vid, p,
+                report("rx:panic", "Go panic / dump error escaped in mode %s for /%s/%s on %s" % (bad_dump, p, fl, hx(subj)), c, vid, p,
                        {m: d["D:" + m][:300] for m in bad_dump})
                 continue
-            # hypotheses of the protocol theorems on this finder table
-            bpos = None
-            if "u" in c["flags"]:                       # unicode mode: only code point boundaries are candidate positions
-                bpos, cur0 = {0}, 0
-                for _, sz0 in py_decode(subj):
-                    cur0 += sz0
-                    bpos.add(cur0)
-            wf = wf_problems(rows, len(subj), bpos)
+
+            # (a) engine routing of findSubmatchIndex: start 0 -> linear engine when there is one, start > 0 -> backtracking engine
+            exp0 = rowsr[0] if hasre2 else rows2[0]
+            route_bad = []
+            if (rows[0] and (rows[0][0], norm_names(rows[0][1]))) != (exp0 and (exp0[0], norm_names(exp0[1]))):
+                route_bad.append(0)
+            for i2 in range(1, n + 1):
+                if (rows[i2] and (rows[i2][0], norm_names(rows[i2][1]))) != (rows2[i2] and (rows2[i2][0], norm_names(rows2[i2][1]))):
+                    route_bad.append(i2)
+            if route_bad:
+                report("finder:routing", "findSubmatchIndex of /%s/%s on %s is not {start 0: linear engine, start>0: regexp2} at starts %s" % (p, fl, hx(subj), route_bad[:4]),
+                       c, vid, p, {"tbl": d["tbl"], "tbl2": d["tbl2"], "tblr": d["tblr"]})
+
+            # (b) hypotheses of the protocol theorems (Leftmost) on the finder goja uses
+            wf = wf_problems(rows, n, bpos)
+            engines_differ = False
+            if hasre2:
+                for i2 in range(n + 1):
+                    if not na_r[i2] and row_idx(rowsr[i2]) != row_idx(rows2[i2]):
+                        engines_differ = True
             if wf:
-                report(signature_for("wf", "E", tags, mixed), "finder table of /%s/%s on %s is not leftmost-consistent: %s" % (p, c["flags"], hx(subj), wf[:3]),
+                report("wf:engine-mix" if engines_differ else "wf:unexplained",
+                       "finder table of /%s/%s on %s is not leftmost-consistent: %s" % (p, fl, hx(subj), wf[:3]),
                        c, vid, p, {"tbl": d["tbl"], "problems": wf})
-            # u-mode: every reported index must be a boundary of the lenient decoding (PosMap theorem posmap_correct)
-            if "u" in c["flags"]:
-                bset, cur = {0}, 0
-                for _, sz in py_decode(subj):
-                    cur += sz
-                    bset.add(cur)
-                for r in rows:
+
+            # (c) unicode mode: every reported index is a boundary of the lenient decoding (PosMap theorems)
+            if "u" in fl:
+                for r in rows + rows2:
                     if r is not None and any(x >= 0 and x not in bset for x in r[0]):
-                        report("posmap:index-not-on-boundary", "/%s/%s on %s reports index off a code point boundary: %s" % (p, c["flags"], hx(subj), r[0]),
-                               c, vid, p, {"tbl": d["tbl"]})
-                st["split_pair_starts"] += sum(1 for s0 in c["starts"] if s0 <= len(subj) and s0 not in bset)
-            # spec-level model vs every mode (R has no model: compared mode against mode below)
-            pred = preds.get(ci + k)
-            fast = dumps.get("fast", {})
-            for mname, dd in dumps.items():
-                kind = "spec-fast" if mname == "fast" else "spec-generic"
-                for op, v in dd.items():
-                    if op[0] == "R":
-                        if mname != "fast" and fast.get(op) != v:
-                            report(signature_for("fast-generic", op, tags, mixed),
-                                   "replace with template: fast path %s, generic (%s) %s for /%s/%s on %s" % (fast.get(op), mname, v, p, c["flags"], hx(subj)),
-                                   c, vid, p, {"op": op, "fast": fast.get(op), mname: v})
-                        continue
-                    st["ops_compared"] += 1
-                    if pred is not None:
-                        if pred.get(op) != v:
-                            report(signature_for(kind, op, tags, mixed),
-                                   "%s of /%s/%s on %s: model(spec) %s, implementation[%s] %s" % (op, p, c["flags"], hx(subj), pred.get(op), mname, v),
-                                   c, vid, p, {"op": op, "model": pred.get(op), "impl": v, "mode": mname, "tbl": d["tbl"]})
-                    elif mname != "fast" and fast.get(op) != v:        # no model available: mode against mode
-                        report(signature_for("fast-generic", op, tags, mixed),
-                               "%s: fast path %s, generic (%s) %s for /%s/%s on %s" % (op, fast.get(op), mname, v, p, c["flags"], hx(subj)),
-                               c, vid, p, {"op": op, "fast": fast.get(op), mname: v})
-            # engine vs engine: the neutral variant must give the same table and the same dumps
-            if k > 0:
-                etags = sorted(set(tags) | set(tags_for(c, meta[ci][2], ds[0]["eng"], base_rows)))
-                if [r and r[0] for r in rows] != [r and r[0] for r in base_rows] or \
-                        [r and norm_names(r[1]) for r in rows] != [r and norm_names(r[1]) for r in base_rows]:
-                    if [r and r[0] for r in rows] == [r and r[0] for r in base_rows]:
-                        sig = signature_for("engine", "E", [t for t in etags if t == "names-nil"], True)
+                        report("posmap:index-not-on-boundary", "/%s/%s on %s reports index off a code point boundary: %s" % (p, fl, hx(subj), r[0]),
+                               c, vid, p, {"tbl": d["tbl"], "tbl2": d["tbl2"]})
+                st["split_pair_starts"] += sum(1 for s0 in c["starts"] if s0 <= n and s0 not in bset)
+
+            # (d) raw findAll lists = the wrapper / engine iteration over the per-engine finder, exactly
+            rawobs = {"m": raw_rows(d["allm"]), "s": raw_rows(d["alls"])}
+            for ent in d["allr"].split(";"):
+                kk, _, l = ent.partition(":")
+                if kk != "" and l != "beyond":
+                    rawobs["r" + kk] = raw_rows(l)
+            ideal = {}
+            cause_raw = {}
+            for (tag, st0, lim, stk) in d.get("_reqs", []):
+                it2, itr, itm = mres.get((li, (tag, "tbl2"))), mres.get((li, (tag, "tblr"))), mres.get((li, (tag, "tbl")))
+                if it2 is None or itm is None:
+                    continue
+                path = find_path(hasre2, subj, "u" in fl, st0, lim)
+                st["paths"][path] = st["paths"].get(path, 0) + 1
+                st["rawlists_checked"] += 1
+                if path == "r2":
+                    expected = it2["coded"]
+                elif path == "go":
+                    expected = itr["go"] if itr else None
+                else:
+                    expected = [list(rowsr[0][0])] if rowsr and rowsr[0] else []
+                obs = rawobs.get(tag)
+                ideal[tag] = itm["ideal"]
+                if patched and path == "go" and lim != 1 and obs == it2["coded"]:
+                    expected = obs            # pattern can match the empty string: the patched code sweeps with regexp2
+                if expected is not None and obs != expected:
+                    report("rawlist:%s:unexplained" % path,
+                           "findAllSubmatchIndex(start=%d, limit=%d, sticky=%s) of /%s/%s on %s: observed %s, %s-path model %s" % (
+                               st0, lim, stk, p, fl, hx(subj), obs, path, expected), c, vid, p,
+                           {"request": [tag, st0, lim, stk], "observed": obs, "expected": expected, "tbl2": d["tbl2"], "tblr": d["tblr"]})
+                # why does the raw list differ from what the generic protocol would collect?
+                if obs != itm["ideal"]:
+                    if path == "r2" and stk and obs == it2["coded"] and it2["ideal"] == itm["ideal"]:
+                        cause_raw[tag] = "sticky-after-empty"
+                    elif path == "go" and itr and obs == itr["go"] and itr["ideal"] == itm["ideal"] and not stk:
+                        cause_raw[tag] = "go-adjacent-empty"
+                    elif path == "go" and itr and obs == itr["go"] and itr["ideal"] == itm["ideal"] and stk:
+                        cause_raw[tag] = "sticky-after-empty" if itr["coded"] == obs else "go-adjacent-empty"
+                    elif path == "single" and stk and obs == expected:
+                        cause_raw[tag] = "sticky-unfiltered-limit1"
+                    elif hasre2 and itr and itr["ideal"] != it2["ideal"]:
+                        cause_raw[tag] = "engine-mix"
+                    elif path == "go" and itr and obs == itr["go"]:
+                        cause_raw[tag] = "engine-mix" if engines_differ else "go-adjacent-empty"
                     else:
-                        sig = signature_for("engine", "E", etags, True)
-                    report(sig, "engines disagree on /%s/%s on %s: %s(%s) %s vs %s(%s) %s" % (
-                        c["pattern"], c["flags"], hx(subj), ds[0]["eng"], "base", ds[0]["tbl"], eng, vid, d["tbl"]), c, vid, p,
-                        {"base_tbl": ds[0]["tbl"], "variant_tbl": d["tbl"]})
-                bd = {k2[2:]: parse_dump(v) for k2, v in ds[0].items() if k2.startswith("D:")}
-                for mname in dumps:
-                    for op, v in dumps[mname].items():
-                        if bd.get(mname, {}).get(op) != v:
-                            report(signature_for("engine", op, etags, True),
-                                   "%s[%s] differs between engines for /%s/%s on %s: %s gives %s, %s (%s) gives %s" % (
-                                       op, mname, c["pattern"], c["flags"], hx(subj), ds[0]["eng"], bd.get(mname, {}).get(op), eng, vid, v),
-                                   c, vid, p, {"op": op, "mode": mname, "base": bd.get(mname, {}).get(op), "variant": v})
-                            break
+                        cause_raw[tag] = "unexplained"
+
+            # (e) glue, exactly: every mode's dump = the mechanism model fed with the observed finder table / raw lists
+            gen, fastm = mres.get((li, "gen")), mres.get((li, "fast"))
+            for mname, dd in dumps.items():
+                for op, v in dd.items():
+                    st["ops_compared"] += 1
+                    if gen is None:
+                        continue
+                    use_fast = (mname == "fast" and op[0] in FVG_OPS) or (mname in ("ginst", "gisym") and op[0] == "P")
+                    if patched and use_fast and ((op[0] == "M" and "g" in fl and "y" in fl) or (op[0] in "FR" and "y" in fl)):
+                        use_fast = False
+                    exp = (fastm if use_fast else gen).get(op)
+                    if patched and use_fast and op[0] == "P":
+                        exp = fastm.get("Pfix" if op == "P" else "PLfix" + op[2:])
+                    if exp != v:
+                        report("glue:%s:%s" % (op[0], "fast" if use_fast else "generic"),
+                               "%s of /%s/%s on %s in mode %s: mechanism model (%s path) %s, implementation %s" % (
+                                   op, p, fl, hx(subj), mname, "fast" if use_fast else "generic", exp, v),
+                               c, vid, p, {"op": op, "mode": mname, "model": exp, "impl": v, "tbl": d["tbl"], "allm": d["allm"], "alls": d["alls"], "allr": d["allr"]})
+            if gen is None and "fast" in dumps:           # no model: mode against mode, nothing can be excused
+                for mname, dd in dumps.items():
+                    for op, v in dd.items():
+                        if mname != "fast" and not (mname in ("ginst", "gisym") and op[0] == "P") and dumps["fast"].get(op) != v:
+                            report("fast-vs-generic:%s:no-model" % op[0], "%s: fast %s, %s %s for /%s/%s on %s" % (op, dumps["fast"].get(op), mname, v, p, fl, hx(subj)),
+                                   c, vid, p, {"op": op})
+
+            # (f) the property itself: fast path = generic path.  Differences are computed in the model world (both sides
+            #     are exact by (d),(e)) and attributed to a known finding only when that finding's mechanism reproduces them.
+            if gen is not None:
+                for op, gv in gen.items():
+                    if op[0] not in FVG_OPS:
+                        continue
+                    fv = fastm.get(op)
+                    if patched:
+                        if (op[0] == "M" and "g" in fl and "y" in fl) or (op[0] in "FR" and "y" in fl):
+                            fv = gv
+                        elif op[0] == "P":
+                            fv = fastm.get("Pfix" if op == "P" else "PLfix" + op[2:])
+                    if fv == gv:
+                        continue
+                    tag = "m" if op[0] == "M" else "s" if op[0] == "P" else "r" + op[1:]
+                    cause = cause_raw.get(tag)
+                    if cause is None and op[0] == "P":
+                        cause = "split-empty-at-previous-end" if fastm.get("Pfix" if op == "P" else "PLfix" + op[2:]) == gv else "unexplained"
+                    elif cause is None:
+                        cause = "unexplained"
+                    if cause == "unexplained" and engines_differ:
+                        cause = "engine-mix"      # the generic path asks regexp2 at start > 0, the fast path asked the linear engine
+                    st["fast_ne_generic"][cause] = st["fast_ne_generic"].get(cause, 0) + 1
+                    sig = "fast-vs-generic:%s" % cause if cause != "unexplained" else "fast-vs-generic:%s:unexplained" % op[0]
+                    report(sig, "%s of /%s/%s on %s: generic path %s, fast path %s (%s)" % (op, p, fl, hx(subj), gv, fv, cause),
+                           c, vid, p, {"op": op, "generic": gv, "fast": fv, "raw": rawobs.get(tag), "ideal": ideal.get(tag), "tbl": d["tbl"]})
+
+            # (g) engine against engine, arbitrated by the reference matcher (ECMA-262 semantics; `w` = word boundary over
+            #     Unicode letters as regexp2 does, `p` = Perl-like loops: no empty-iteration check, no capture reset)
+            if k == 0 and hasre2:
+                refs = {nm: mres.get((li, nm)) for nm in ("ref", "refw", "refp", "refwp")}
+                lin = [None if na_r[i2] else (row_idx(rowsr[i2]) or "x") for i2 in range(n + 1)]
+                r2 = [(row_idx(rows2[i2]) or "x") for i2 in range(n + 1)]
+                cmp_pos = [i2 for i2 in range(n + 1) if lin[i2] is not None]
+                st["engine_rows_compared"] += len(cmp_pos)
+
+                def same(tbl_, eng_rows):
+                    return tbl_ is not None and all(tbl_[i2] == "na" or (tbl_[i2] or "x") == eng_rows[i2] for i2 in cmp_pos)
+
+                def spans(rows_):
+                    return [(r if r in ("x", None) else r[:2]) for r in rows_]
+                if refs["ref"] is not None:
+                    key = "lin=%s r2=%s" % (next((nm for nm in ("ref", "refp", "refw", "refwp") if same(refs[nm], lin)), "none"),
+                                            next((nm for nm in ("ref", "refp", "refw", "refwp") if same(refs[nm], r2)), "none"))
+                    st.setdefault("three_way", {})[key] = st.setdefault("three_way", {}).get(key, 0) + 1
+                if any(lin[i2] != r2[i2] for i2 in cmp_pos):
+                    diff_at = [i2 for i2 in cmp_pos if lin[i2] != r2[i2]]
+                    span_diff = [i2 for i2 in diff_at if spans([lin[i2]]) != spans([r2[i2]])]
+                    cap_diff = set()
+                    for i2 in diff_at:
+                        if i2 not in span_diff:
+                            for g in range(1, len(lin[i2]) // 2):
+                                if lin[i2][2 * g:2 * g + 2] != r2[i2][2 * g:2 * g + 2]:
+                                    cap_diff.add(g)
+                    sig = None
+                    if refs["ref"] is not None:
+                        lin_ok = same(refs["ref"], lin) or same(refs["refp"], lin)
+                        if lin_ok and (same(refs["refw"], r2) or same(refs["refwp"], r2)) and has_wordboundary(c, p):
+                            sig = "engine:regexp2-wordboundary-unicode-letters"      # reproduced exactly by switching the word-character set
+                        elif span_diff:
+                            sig = "engine:span:unexplained"
+                        elif cap_diff <= set(render_lean(ast, "u" in fl)[2]) and (same(refs["ref"], r2) or same(refs["refp"], r2) or same(refs["ref"], lin) or same(refs["refp"], lin)):
+                            sig = "engine:quantified-group-captures"                  # one engine is reproduced exactly, the other differs only inside quantified groups
+                        else:
+                            sig = "engine:captures:unexplained"
+                    else:       # no AST (corpus seeds given as source text): circumstance test only
+                        if span_diff:
+                            sig = "engine:regexp2-wordboundary-unicode-letters" if (has_wordboundary(c, p) and any(u in LETTERS_NONASCII for u in subj)) else "engine:span:unexplained"
+                        else:
+                            sig = "engine:quantified-group-captures" if QUANT_GROUP_RE.search(p) else "engine:captures:unexplained"
+                    report(sig, "engines disagree on /%s/%s on %s at starts %s: linear %s vs regexp2 %s; reference %s" % (
+                        p, fl, hx(subj), diff_at[:4], d["tblr"], d["tbl2"], refs["ref"]), c, vid, p,
+                        {"tblr": d["tblr"], "tbl2": d["tbl2"], "reference": refs, "captures_differing": sorted(cap_diff)})
+                names_l = [None if na_r[i2] or rowsr[i2] is None else norm_names(rowsr[i2][1]) for i2 in range(n + 1)]
+                names_l = [None if na_r[i2] or rowsr[i2] is None or rows2[i2] is None else norm_names(rowsr[i2][1]) for i2 in range(n + 1)]
+                names_2 = [None if na_r[i2] or rows2[i2] is None or rowsr[i2] is None else norm_names(rows2[i2][1]) for i2 in range(n + 1)]
+                if names_l != names_2:
+                    report("engine:group-names", "group names differ between engines for /%s/%s on %s" % (p, fl, hx(subj)), c, vid, p, {"tblr": d["tblr"], "tbl2": d["tbl2"]})
+            if k > 0:
+                # a neutral variant runs on regexp2 only and must reproduce the base pattern's regexp2 table exactly
+                if [(r and (r[0], norm_names(r[1]))) for r in rows2] != [(r and (r[0], norm_names(r[1]))) for r in base_rows2]:
+                    report("engine:neutral-variant-changes-result", "variant %s of /%s/%s on %s: regexp2 gives %s for the base pattern, %s for the variant" % (
+                        vid, c["pattern"], fl, hx(subj), ds[0]["tbl2"], d["tbl2"]), c, vid, p, {"base_tbl2": ds[0]["tbl2"], "variant_tbl2": d["tbl2"]})
     return len(found)
 
 
